@@ -318,12 +318,15 @@ func (x *exhaust) visit(depth int) bool {
 				}
 			}
 		}
-		if depth > 0 || x.shard == 0 { // length-1 histories are evaluated by every shard but counted once
+		// each history is counted in the pass whose bound is its length; length-1 histories are evaluated by every
+		// shard but counted once
+		counted := depth+1 == x.maxLen && (depth > 0 || x.shard == 0)
+		if counted {
 			x.visited++
 			x.rec.Case(x.lenLabel[depth+1])
 		}
 		nt := x.nontriv[depth] || nonTrivialStep(x.states[depth], x.alphabet[i])
-		if nt && depth+1 <= 4 && (depth > 0 || x.shard == 0) {
+		if nt && depth+1 <= 4 && counted {
 			key := make([]byte, 0, 8)
 			key = append(key, "exh:"...)
 			for d := 0; d <= depth; d++ {
@@ -352,8 +355,8 @@ func TestC19Exhaustive(t *testing.T) {
 	if hx.Replaying() {
 		t.Skip() // replays of enumerated histories are evaluated by TestC19History (same case type, check prefix "fold")
 	}
-	maxLen := stats.Scale(5, 6)
-	if maxLen > 6 {
+	maxLen := 5 // quick; the property's quantifier (length 6) is covered by the thorough tier
+	if stats.Thorough() {
 		maxLen = 6
 	}
 	x := &exhaust{rec: rec, client: &d2.Client{}, alphabet: exhaustiveAlphabet(), maxLen: maxLen}
@@ -373,7 +376,12 @@ func TestC19Exhaustive(t *testing.T) {
 	x.snaps[0] = d2.VerifNewServiceUris(zk)
 	x.copies[0] = render(x.snaps[0])
 	x.states[0] = d2model.State{}
-	ok := x.visit(0)
+	// iterative deepening, so that the first violation reported is one of the shortest histories of this shard
+	ok := true
+	for l := 1; l <= maxLen && ok; l++ {
+		x.maxLen = l
+		ok = x.visit(0)
+	}
 	rec.Exhaustive(fmt.Sprintf("event histories of length 1..%d over 3 nodes x {write A, write B, delete, malformed, bad host URL, weight-less} + cluster-node event (19 symbols), every prefix checked", maxLen), x.visited)
 	if !ok {
 		// re-evaluate the history on its own so that the replay file holds a case that fails without the prefix tree
@@ -443,10 +451,7 @@ func genEvent(t *rapid.T) d2model.Event {
 
 func genHistory(t *rapid.T) histCase {
 	c := histCase{Cluster: clusterName, Loop: rapid.Bool().Draw(t, "via_update_loop")}
-	n := rapid.IntRange(1, 12).Draw(t, "len")
-	for i := 0; i < n; i++ {
-		c.Events = append(c.Events, genEvent(t))
-	}
+	c.Events = rapid.SliceOfN(rapid.Custom(genEvent), 1, 12).Draw(t, "events") // a slice shrinks by dropping events
 	return c
 }
 
